@@ -1,18 +1,21 @@
 #!/usr/bin/env python3
 """Ad-hoc mutation run: tools/mut.py <repo-relative file> <old> <new> <ID> [<ID>...]
-Applies one textual replacement in /repo, runs the quick checks (no evidence), reverts with git checkout."""
-import subprocess, sys
+Applies one textual replacement in a scratch worktree of /repo's HEAD, runs the quick checks against it (VERIF_REPO)."""
+import os, subprocess, sys
 f, old, new, ids = sys.argv[1], sys.argv[2], sys.argv[3], sys.argv[4:]
-p = '/repo/' + f
-s = open(p).read()
-if s.count(old) != 1:
-    print('pattern occurs %d times' % s.count(old)); sys.exit(3)
-open(p, 'w').write(s.replace(old, new))
+wt = '/tmp/wt/mut-%d' % os.getpid()
+os.makedirs('/tmp/wt', exist_ok=True)
+subprocess.run(['git', '-C', '/repo', 'worktree', 'add', '-q', '--detach', wt, 'HEAD'], check=True)
 try:
+    p = wt + '/' + f
+    s = open(p).read()
+    if s.count(old) != 1:
+        print('pattern occurs %d times' % s.count(old)); sys.exit(3)
+    open(p, 'w').write(s.replace(old, new))
     for i in ids:
-        r = subprocess.run(['/verif/check', i, '--tier', 'quick', '--no-evidence'], capture_output=True, text=True)
+        r = subprocess.run(['/verif/check', i, '--tier', 'quick', '--no-evidence'], capture_output=True, text=True, env=dict(os.environ, VERIF_REPO=wt))
         lines = [l for l in r.stdout.splitlines() if l.startswith(('VIOLATION', 'KNOWN', 'FAULT', i)) or 'clause=' in l]
         print('%s exit=%d' % (i, r.returncode)); print('\n'.join('   ' + l for l in lines[:12]))
         if r.returncode == 2: print(r.stdout[-1500:], r.stderr[-1500:])
 finally:
-    subprocess.run(['git', '-C', '/repo', 'checkout', '--', f])
+    subprocess.run(['git', '-C', '/repo', 'worktree', 'remove', '--force', wt])
